@@ -218,6 +218,9 @@ func ParseVpsSpsPpsFromSeqHeader(payload []byte) (vps, sps, pps []byte, err erro
 }
 
 func ParseVpsSpsPpsFromEnhancedSeqHeader(payload []byte) (vps, sps, pps []byte, err error) {
+	if len(payload) < 1 {
+		return nil, nil, nil, nazaerrors.Wrap(base.ErrShortBuffer)
+	}
 	packetType := payload[0] & 0x0f
 
 	if packetType == 0 {
@@ -293,6 +296,9 @@ func parseVpsSpsPpsAnnexbFromRecord(payload []byte) (vps, sps, pps []byte, err e
 }
 
 func parseVpsSpsPpsFromRecord(payload []byte) (vps, sps, pps []byte, err error) {
+	if len(payload) < 33 {
+		return nil, nil, nil, nazaerrors.Wrap(base.ErrHevc)
+	}
 	index := 27
 	if numOfArrays := payload[index]; numOfArrays != 3 && numOfArrays != 4 {
 		return nil, nil, nil, nazaerrors.Wrap(base.ErrHevc)
